@@ -212,7 +212,13 @@ func (rc *RunCtx) Bubble(f func()) (leak string) {
 		}
 	}()
 	synctest.Test(rc.T, func(t *testing.T) {
+		abortsBefore := simrt.Aborts()
 		f()
+		if simrt.Aborts() != abortsBefore {
+			// an aborted run leaves its tasks frozen or asleep; waking the sleepers now would
+			// let them run on without a scheduler. They stay behind (aborted runs are rare).
+			return
+		}
 		// Time stops when this function returns, and a goroutine still asleep then
 		// stays behind for the life of the process with everything it references.
 		// Let pending timers of finished executions fire (no scheduler is active any
